@@ -36,6 +36,8 @@ type httpIn struct {
 	Target string    `json:"target"`
 	TLS    bool      `json:"tls"`
 	XFP    string    `json:"xfp,omitempty"`
+	XFP2   string    `json:"xfp2,omitempty"` // a second X-Forwarded-Proto line (Header.Get reads the first)
+	Method string    `json:"method,omitempty"` // empty: GET
 	NoGlob bool      `json:"noglob,omitempty"`
 	// the headers by which ServeHTTP chooses the upstream handler (websocket, SSE, plain)
 	Upgrade string `json:"upgrade,omitempty"`
@@ -103,7 +105,7 @@ func (f *fronts) dial(useTLS bool) (*persist, error) {
 // exchange writes the request bytes and reads one response. A connection that was kept from an earlier case and
 // turns out to be dead is replaced once; oneShot requests (protocol upgrades: the connection is hijacked) get a
 // connection of their own. status -1: the server closed the connection without a response (handler panic).
-func (f *fronts) exchange(useTLS bool, msg string, oneShot bool) (status int, loc string, hasLoc bool, err error) {
+func (f *fronts) exchange(useTLS bool, method, msg string, oneShot bool) (status int, loc string, hasLoc bool, err error) {
 	k := 0
 	if useTLS {
 		k = 1
@@ -133,7 +135,7 @@ func (f *fronts) exchange(useTLS bool, msg string, oneShot bool) (status int, lo
 			}
 			return -1, "", false, nil
 		}
-		resp, rerr := http.ReadResponse(pc.br, nil)
+		resp, rerr := http.ReadResponse(pc.br, &http.Request{Method: method})
 		if rerr != nil {
 			drop()
 			if kept && pc.br.Buffered() == 0 {
@@ -223,7 +225,15 @@ func runHTTP(in httpIn) (interface{}, error) {
 	if err != nil {
 		return httpOut{Err: "route"}, nil
 	}
-	if strings.ContainsAny(in.Target, " \r\n\x00") || strings.ContainsAny(in.Host, " \r\n\x00") || strings.ContainsAny(in.XFP+in.Upgrade+in.Accept, "\r\n\x00") {
+	method := in.Method
+	if method == "" {
+		method = "GET"
+	}
+	okMethod := false
+	for _, m := range httpMethods {
+		okMethod = okMethod || m == method
+	}
+	if !okMethod || strings.ContainsAny(in.Target, " \r\n\x00") || strings.ContainsAny(in.Host, " \r\n\x00") || strings.ContainsAny(in.XFP+in.XFP2+in.Upgrade+in.Accept, "\r\n\x00") || (in.XFP == "" && in.XFP2 != "") {
 		return httpOut{Err: "request"}, nil
 	}
 	f.tbl.Store(tbl)
@@ -233,9 +243,15 @@ func runHTTP(in httpIn) (interface{}, error) {
 	}
 
 	var b strings.Builder
-	fmt.Fprintf(&b, "GET %s HTTP/1.1\r\nHost: %s\r\n", in.Target, in.Host)
+	fmt.Fprintf(&b, "%s %s HTTP/1.1\r\nHost: %s\r\n", method, in.Target, in.Host)
 	if in.XFP != "" {
 		fmt.Fprintf(&b, "X-Forwarded-Proto: %s\r\n", in.XFP)
+	}
+	if in.XFP2 != "" {
+		fmt.Fprintf(&b, "X-Forwarded-Proto: %s\r\n", in.XFP2)
+	}
+	if method == "POST" || method == "PUT" {
+		b.WriteString("Content-Length: 0\r\n")
 	}
 	if in.Accept != "" {
 		fmt.Fprintf(&b, "Accept: %s\r\n", in.Accept)
@@ -245,7 +261,7 @@ func runHTTP(in httpIn) (interface{}, error) {
 	}
 	b.WriteString("\r\n")
 	out := httpOut{}
-	out.Status, out.Location, out.HasLoc, err = f.exchange(in.TLS, b.String(), in.Upgrade != "")
+	out.Status, out.Location, out.HasLoc, err = f.exchange(in.TLS, method, b.String(), in.Upgrade != "")
 	if err != nil {
 		return nil, err
 	}
@@ -296,6 +312,22 @@ func runHTTP(in httpIn) (interface{}, error) {
 		}
 	}
 	return out, nil
+}
+
+// the redirect branch does not look at the method
+var httpMethods = []string{"GET", "HEAD", "POST", "PUT", "DELETE", "OPTIONS", "PATCH"}
+
+// genReqExtras: method and header spellings a redirect must not depend on
+func genReqExtras(r *hx.Rand, in *httpIn) {
+	if r.Chance(1, 4) {
+		in.Method = r.Pick(httpMethods)
+	}
+	if in.XFP != "" && r.Chance(1, 8) {
+		in.XFP2 = r.Pick([]string{"https", "http"})
+	}
+	if r.Chance(1, 16) {
+		in.XFP = r.Pick([]string{"https, http", "https,http", "http, https", " https", "Https"})
+	}
 }
 
 var httpReqHosts = []string{"example.com", "example.com:80", "example.com:443", "EXAMPLE.com", "www.example.com", "x.com", "x.com:8080", "other.org"}
@@ -355,6 +387,7 @@ func genNextHost(r *hx.Rand) httpIn {
 		}
 		in.Routes = append(in.Routes, ri)
 	}
+	genReqExtras(r, &in)
 	return in
 }
 
@@ -408,6 +441,7 @@ func genHTTP(r *hx.Rand) httpIn {
 		}
 		in.Routes = append(in.Routes, ri)
 	}
+	genReqExtras(r, &in)
 	return in
 }
 
@@ -443,6 +477,11 @@ func init() {
 			httpIn{Routes: []routeIn{{"/", tgtIn{Tmpl: "https://$host$path", Redirect: "301"}}}, Host: "c.com", Target: "/events", Accept: "text/event-stream"},
 			httpIn{Routes: []routeIn{{"/", tgtIn{Tmpl: "UPSTREAM"}}}, Host: "c.com", Target: "/ws", Upgrade: "websocket"},
 			httpIn{Routes: []routeIn{{"/", tgtIn{Tmpl: "UPSTREAM"}}}, Host: "c.com", Target: "/events", Accept: "text/event-stream"},
+			// the redirect does not depend on the method; Header.Get reads the first X-Forwarded-Proto line
+			httpIn{Routes: []routeIn{{"/", tgtIn{Tmpl: "https://$host$path", Redirect: "308"}}}, Host: "c.com", Target: "/submit?x=1", Method: "POST"},
+			httpIn{Routes: []routeIn{{"/", tgtIn{Tmpl: "https://$host$path", Redirect: "301"}}}, Host: "c.com", Target: "/x", Method: "HEAD"},
+			httpIn{Routes: []routeIn{{"/", tgtIn{Tmpl: "https://$host$path", Redirect: "301"}}, {"c.com/", tgtIn{Tmpl: "UPSTREAM"}}}, Host: "c.com", Target: "/x", XFP: "https", XFP2: "http"},
+			httpIn{Routes: []routeIn{{"/", tgtIn{Tmpl: "https://$host$path", Redirect: "301"}}}, Host: "c.com", Target: "/x", XFP: "http", XFP2: "https"},
 			// the access gate stands in front of the redirect branch
 			httpIn{Routes: []routeIn{{"/", tgtIn{Tmpl: "https://$host$path", Redirect: "301", Deny: "ip:127.0.0.1"}}}, Host: "c.com", Target: "/x"},
 			httpIn{Routes: []routeIn{{"/", tgtIn{Tmpl: "https://$host$path", Redirect: "301", Allow: "ip:127.0.0.0/8"}}}, Host: "c.com", Target: "/x"},
